@@ -270,7 +270,9 @@ func onePipe(o *opts, r *rng, s *summary, i int, pl *pipeline, distinct map[stri
 	}
 	if pl.cyclic {
 		// every traversal refuses; nothing on the cycle executes; nothing changes
-		cmds := []Cmd{{Kind: "run"}, {Kind: "commit"}, {Kind: "checkout"}, {Kind: "status"}, {Kind: "graph"}, {Kind: "push"}, {Kind: "fetch"}}
+		cmds := []Cmd{{Kind: "run"}, {Kind: "commit"}, {Kind: "checkout"}, {Kind: "status"}, {Kind: "graph"}, {Kind: "push"}, {Kind: "fetch"},
+			// without stage arguments --single-stage is ignored: the whole (cyclic) index is walked
+			{Kind: "checkout", Single: true, Copy: true}, {Kind: "push", Single: true}, {Kind: "fetch", Single: true}}
 		// a remote so that push/fetch get as far as the traversal
 		cfg := filepath.Join(p.Root, ".dud", "config.yaml")
 		f, err := os.OpenFile(cfg, os.O_APPEND|os.O_WRONLY, 0o644)
@@ -279,7 +281,7 @@ func onePipe(o *opts, r *rng, s *summary, i int, pl *pipeline, distinct map[stri
 		f.Close()
 		must(os.MkdirAll(filepath.Join(p.Base, "remote"), 0o755))
 		for _, c := range cmds {
-			if len(pl.stages) > 3 && r.chance(1, 2) {
+			if len(pl.stages) > 3 && r.chance(1, 2) && !c.Single {
 				c.Targets = []string{"z_down.yaml"}
 			}
 			t, w = p.do(c, sems, want(5, 23, 8, 9, 13), nil, nil)
@@ -403,6 +405,13 @@ func onePipe(o *opts, r *rng, s *summary, i int, pl *pipeline, distinct map[stri
 			if r.chance(1, 2) {
 				os.Remove(fp)
 				s.count("edit:delete-output")
+			} else if b, err := os.ReadFile(fp); err == nil && len(b) > 0 && r.chance(1, 2) {
+				// damage that keeps the size: only the last byte differs
+				nb := append([]byte{}, b...)
+				nb[len(nb)-1] ^= 0x01
+				os.Remove(fp)
+				must(os.WriteFile(fp, nb, 0o644))
+				s.count("edit:damage-output-same-size")
 			} else if _, err := os.Lstat(fp); err == nil {
 				os.Remove(fp)
 				must(os.WriteFile(fp, []byte("damaged\n"), 0o644))
